@@ -160,10 +160,10 @@ def _cases(tier, rng):
         for salt in (0, 1, 2):
             yield mk(hist, every=(i + salt) % 3 != 0, salt=salt)
     # structured random
-    for i in range(900 if quick else 20000):
+    for i in range(1300 if quick else 20000):
         n = rng.randint(3, 5 if quick else 7)
         yield mk([rand_op(rng) for _ in range(n)], every=rng.random() < 0.67, salt=rng.randint(0, 5))
-    for i in range(100 if quick else 2000):
+    for i in range(150 if quick else 2000):
         n = rng.randint(8, 25 if quick else 40)
         yield mk([rand_op(rng) for _ in range(n)], every=rng.random() < 0.67, salt=rng.randint(0, 5))
 
